@@ -311,11 +311,23 @@ func spawnWorker() (*workerProc, error) {
 		outF: rp, stderr: tb}, nil
 }
 
-func (w *workerProc) kill() {
+func (w *workerProc) kill() string {
 	w.in.Close()
-	w.cmd.Process.Kill()
-	w.cmd.Wait()
+	// Give a dying process a moment to finish on its own so that its exit
+	// status tells how it died.
+	done := make(chan struct{})
+	go func() { w.cmd.Wait(); close(done) }()
+	select {
+	case <-done:
+	case <-time.After(500 * time.Millisecond):
+		w.cmd.Process.Kill()
+		<-done
+	}
 	w.outF.Close()
+	if w.cmd.ProcessState != nil {
+		return w.cmd.ProcessState.String()
+	}
+	return "no exit status"
 }
 
 func (w *workerProc) retire() {
@@ -380,6 +392,8 @@ func deathReason(stderr string, timedOut bool) string {
 		return "no answer within the hard time limit"
 	case strings.Contains(stderr, "out of memory") || strings.Contains(stderr, "cannot allocate memory"):
 		return "out of memory in " + oomParty(stderr) + " (allocation from a corrupted length field)"
+	case strings.Contains(stderr, "pthread_create failed") || strings.Contains(stderr, "failed to create new OS thread"):
+		return "thread creation failed under the address-space limit (after a large allocation from a corrupted length field)"
 	case strings.Contains(stderr, "fatal error:"):
 		i := strings.Index(stderr, "fatal error:")
 		line := stderr[i:]
@@ -413,6 +427,8 @@ func oomParty(stderr string) string {
 	}
 	return "unknown party"
 }
+
+var unexplained = func(string) {}
 
 // do sends one request to a worker and waits for the answer.
 func (p *pool) do(req Request) (Reply, error) {
@@ -463,13 +479,19 @@ func (p *pool) do(req Request) (Reply, error) {
 	select {
 	case a := <-ch:
 		if a.err != nil {
-			w.kill()
+			status := w.kill()
 			p.deaths.Add(1)
 			p.slots <- nil
 			if os.Getenv("VERIF_C16_DEBUG") != "" {
 				fmt.Fprintf(os.Stderr, "DBG worker died (%v) on %s\nDBG stderr tail: %s\n", a.err, data, w.stderr.String())
 			}
-			return Reply{}, errWorkerDied{deathReason(w.stderr.String(), false)}
+			why := deathReason(w.stderr.String(), false)
+			if why == "unknown" {
+				why = "unexplained"
+				unexplained(fmt.Sprintf("worker died without a fatal-error message: read error %v, %s, stderr %q, request %s",
+					a.err, status, short(w.stderr.String(), 600), short(string(data), 500)))
+			}
+			return Reply{}, errWorkerDied{why}
 		}
 		if a.rep.Recycle {
 			w.retire()
